@@ -6,7 +6,7 @@
    The generator predicts the kernel with the reference reconciler (Target); the prediction only steers
    exploration - verdicts come from validating the recorded trace against RTable (T_RTable).
 
-   "apply" records: fw / fr = number of writes / reads the environment makes fail (0, 1 or 99 = all,
+   "apply" records: fw / fr = number of writes / reads the environment makes fail (0, 1, 6 or 99 = all,
    which makes the Apply fail and - as in production, where Felix then exits - is followed by a
    restart); pre = an out-of-band edit made by other software right before Felix's read ("read") or
    between its read and its write ("write", together with a failing write when prefail - the
@@ -69,7 +69,7 @@ GNext ==
         \/ belief.stale /\ ~belief.due /\ Step(Tick, [op |-> "tick"])
         \/ Rarely(4) /\ Step(Restart, [op |-> "restart"])
         \/ Step(GApply(0, 0, "none", NoEdit, FALSE), ApplyRec(0, 0, "none", NoEdit, FALSE))
-        \/ \E fw \in Pick({1, 1, 1, 99}) : Step(GApply(fw, 0, "none", NoEdit, FALSE), ApplyRec(fw, 0, "none", NoEdit, FALSE))
+        \/ \E fw \in Pick({1, 6, 99}) : Step(GApply(fw, 0, "none", NoEdit, FALSE), ApplyRec(fw, 0, "none", NoEdit, FALSE))
         \/ \E fr \in Pick({1, 99}) : Step(GApply(0, fr, "none", NoEdit, FALSE), ApplyRec(0, fr, "none", NoEdit, FALSE))
         \/ \E e \in Pick({ x \in PreEdits : EditFn(kernel, x) # kernel }), pre \in Pick({"read", "write"}), pf \in Pick(BOOLEAN) :
               (pre = "read" => ~pf) /\ Step(GApply(0, 0, pre, e, pf), ApplyRec(0, 0, pre, e, pf))
